@@ -303,3 +303,36 @@ pub fn replay(_ctx: &Ctx, _sub: &str, input: &serde_json::Value) -> Result<(), F
     let mut st = Stats::new();
     check(&c, &mut st)
 }
+
+/// libFuzzer differential target: first 3 bytes choose the chunking, the rest is the byte stream.
+/// Oracle (no reference model needed): the incremental report equals the one-shot fingerprint of the bytes received
+/// up to and including the reporting chunk, at most one report, and if nothing was reported the one-shot
+/// extraction of the whole stream yields nothing either.
+pub fn fuzz_chunks(data: &[u8]) {
+    if data.len() < 4 {
+        return;
+    }
+    let raw: Vec<u16> = data[..3].iter().map(|b| (*b as u16) * 257).collect();
+    let stream = &data[3..];
+    let cuts = cut_positions(&raw, stream.len());
+    let mut ex = Http2FingerprintExtractor::new();
+    let mut delivered = 0;
+    let mut reported = false;
+    for chunk in split(stream, &cuts) {
+        delivered += chunk.len();
+        match ex.add_bytes(&chunk) {
+            Ok(Some(f)) => {
+                assert!(!reported, "reported twice");
+                reported = true;
+                let one = extract_akamai_fingerprint_from_bytes(&stream[..delivered]);
+                assert_eq!(one.as_ref().map(|o| o.fingerprint.clone()), Some(f.fingerprint.clone()), "incremental differs from one-shot of the received bytes");
+                assert_eq!(one.map(|o| o.hash), Some(f.hash));
+            }
+            Ok(None) => {}
+            Err(_) => return,
+        }
+    }
+    if !reported {
+        assert!(extract_akamai_fingerprint_from_bytes(stream).is_none(), "one-shot finds a fingerprint the incremental extractor never reported");
+    }
+}
